@@ -7211,7 +7211,8 @@ pub(crate) fn eval(env: &mut Env, session: &Session) -> Result<Value, EvalError>
                 // `for x in y { z }` loops are a special case. We
                 // want to evaluate `y`, enter the block, then stop
                 // evaluation, so we know the first value of `x`.
-                if matches!(outer_expr.expr_, Expression_::ForIn(_, _, _))
+                if env.stop_at_loop_entry
+                    && matches!(outer_expr.expr_, Expression_::ForIn(_, _, _))
                     && matches!(expr_state, ExpressionState::PartiallyEvaluated(_))
                 {
                     return Ok(Value::unit());
@@ -7836,9 +7837,14 @@ pub(crate) fn eval_toplevel_exprs_then_stop(
 
     let old_stop_at_expr_id = env.stop_at_expr_id;
     env.stop_at_expr_id = Some(last_expr.id);
+    // We want the last expression to run to completion, even if it's
+    // a `for` loop.
+    let old_stop_at_loop_entry = env.stop_at_loop_entry;
+    env.stop_at_loop_entry = false;
 
     let eval_result = eval_toplevel_exprs(&exprs, env, session);
     env.stop_at_expr_id = old_stop_at_expr_id;
+    env.stop_at_loop_entry = old_stop_at_loop_entry;
 
     let mut values = eval_result?;
     Ok(values.pop())
